@@ -46,7 +46,7 @@ theorem preeditLoop_ok (ci fi : Bytes) (cp : Nat) : ∀ (l : List Seg) (a : Pree
 theorem getPreedit_wf (c : Comp) (fi : Bytes) (cp : Nat) (sc : Bytes) : (c.getPreedit fi cp sc).WF := by
   have h0 : AccOK ({} : PreeditAcc) := ⟨by simp, by simp, by intro p hp; simp at hp⟩
   have h1 := preeditLoop_ok c.input fi cp c.segs {} h0
-  unfold Comp.getPreedit Preedit.WF
+  unfold Comp.getPreedit preeditFinish PreeditAcc.cursor PreeditAcc.fullText Preedit.WF
   generalize preeditLoop c.input fi cp c.segs {} = a at h1
   unfold AccOK at h1
   obtain ⟨h1, h2, h3⟩ := h1
